@@ -240,7 +240,7 @@ def run(ctx):
         raise core.MachineryFailure("TwpRgeLex emitted no cases")
     ctx.exhaustive = thorough
     check(ctx, cases)
-    ctx.rule = ("written forms = every (template class x numbers {1,7,154} x {2,12,97} x each direction present N/S/E/W or absent) "
+    ctx.rule = ("written forms = every (template class x numbers {1,7,104,154} x {2,12,97,100} x each direction present N/S/E/W or absent) "
                 "x defaults x source per axis (config / parse keyword / MasterConfig / unset, independently for N/S and E/W) x ocr_scrub of spec/TwpRgeLex.tla (%d%%), "
                 "each rendered with a random concrete spelling, plus pairs of Twp/Rges in one description (40%% denoting the same "
                 "Twp/Rge, one of them with a missing direction); non-trivial = distinct (text, source, defaults, ocr)"
